@@ -310,17 +310,17 @@ def shadow_runs(ctx):
     rng = ctx.rng
     files = gen.fixture_files(); rng.shuffle(files)
     cases = []
-    for d, f in files[: ctx.budget(30, 2249)]:
+    for d, f in files[: ctx.budget(30, 900)]:
         try:
             t = f.read_text(encoding="utf-8")
         except Exception:
             continue
-        if len(t) <= ctx.budget(1500, 3000):
+        if len(t) <= ctx.budget(1500, 2500):
             cases.append((d, f.name, t))
-    cases += [(d, n + "#mut", gen.mutate_sql(rng, t)) for (d, n, t) in cases[: ctx.budget(15, 600)]]
+    cases += [(d, n + "#mut", gen.mutate_sql(rng, t)) for (d, n, t) in cases[: ctx.budget(15, 300)]]
     # comments are legal between any two tokens: the tree must not depend on the optimisations with a comment sitting between a
     # match and what follows it either
-    for (d, n, t) in list(cases[: ctx.budget(30, 1500)]):
+    for (d, n, t) in list(cases[: ctx.budget(30, 600)]):
         if n.endswith("#mut"):
             continue
         try:
@@ -340,11 +340,11 @@ def shadow_runs(ctx):
     syst = ["ansi"] + rng.sample([d for d in dialects if d != "ansi"], 1) if ctx.quick() else dialects
     for d in dialects:
         if d in syst or not ctx.quick():
-            cases += [(d, "kw", s_) for s_ in keyword_inputs(rng, d, ctx.budget(10, 100), d in syst)]
+            cases += [(d, "kw", s_) for s_ in keyword_inputs(rng, d, ctx.budget(10, 40), d in syst)]
     import multiprocessing
     jobs = [(d, name, sql, rng.getrandbits(32)) for (d, name, sql) in cases]
     from vlib.par import robust_map
-    results = robust_map(_shadow_case, jobs, 14, ctx.budget(240, 600))
+    results = robust_map(_shadow_case, jobs, 14, ctx.budget(240, 300))
     for r in results:
         if "case" not in r:          # timed out (an uncached parse of a large file can take very long) or the worker died
             ctx.bump("shadow_timeout" if r.get("timeout") else "shadow_worker_died"); continue
